@@ -1922,3 +1922,37 @@ mod tests {
 }
 
 
+
+/// Verification hooks (only compiled with `--cfg inkayaku_verif`): constructors and read-only accessors
+/// for otherwise private state and tables. Adds items only; no production code path uses them.
+#[cfg(inkayaku_verif)]
+pub mod verif {
+    use super::*;
+    pub use crate::board::precalculated::{MagicConfiguration, Magics, UnsafeMagicsExt};
+
+    pub fn player_state(occupancy: [OccupancyBits; 7], queen_side_castle: bool, king_side_castle: bool) -> PlayerState {
+        PlayerState { occupancy, queen_side_castle, king_side_castle }
+    }
+
+    pub fn rook_magics() -> &'static Magics { &ROOK_MAGICS }
+    pub fn bishop_magics() -> &'static Magics { &BISHOP_MAGICS }
+    pub fn is_rook_magics(m: &Magics) -> bool { m[0].verif_mask() == ROOK_MAGICS[0].verif_mask() }
+
+    pub fn rook_attacks(square: SquareShiftBits, occupancy: u64) -> u64 { ROOK_MAGICS.get_attacks(square, occupancy) }
+    pub fn bishop_attacks(square: SquareShiftBits, occupancy: u64) -> u64 { BISHOP_MAGICS.get_attacks(square, occupancy) }
+    pub fn rook_index(square: usize, occupancy: u64) -> usize { ROOK_MAGICS[square].verif_index(occupancy) }
+    pub fn bishop_index(square: usize, occupancy: u64) -> usize { BISHOP_MAGICS[square].verif_index(occupancy) }
+    pub fn rook_table_len(square: usize) -> usize { ROOK_MAGICS[square].verif_table_len() }
+    pub fn bishop_table_len(square: usize) -> usize { BISHOP_MAGICS[square].verif_table_len() }
+    pub fn king_attacks(square: SquareShiftBits) -> u64 { unsafe { KING_NONMAGICS.get_attacks(square) } }
+    pub fn knight_attacks(square: SquareShiftBits) -> u64 { unsafe { KNIGHT_NONMAGICS.get_attacks(square) } }
+    pub fn white_pawn_attacks(square: SquareShiftBits) -> u64 { unsafe { WHITE_PAWN_NONMAGICS.get_attacks(square) } }
+    pub fn black_pawn_attacks(square: SquareShiftBits) -> u64 { unsafe { BLACK_PAWN_NONMAGICS.get_attacks(square) } }
+
+    pub fn zobrist_piece_key(piece: PieceBits, square: SquareShiftBits, color: ColorBits) -> ZobristHash { Zobrist::piece_square_hash(piece, square, color) }
+    pub fn zobrist_en_passant_key(square: SquareShiftBits) -> ZobristHash { Zobrist::en_passant_square_hash(square) }
+    pub fn zobrist_castle_key(side: PieceBits, color: ColorBits) -> ZobristHash { Zobrist::castle_hash(side, color) }
+    pub fn zobrist_black_to_move_key() -> ZobristHash { Zobrist::BLACK_TO_MOVE_HASH }
+
+    pub fn mvv_lva(piece_active: PieceBits, piece_attacked: PieceBits) -> i32 { Bitboard::mvv_lva(piece_active, piece_attacked) }
+}
